@@ -280,7 +280,10 @@ async def settle(w: World, quiet: float = 0.25, limit: float = 12.0):
             # thread -> end-run takes a while under load) and the harness is not withholding any gate: in transit
             held = any(getattr(g, 'info', {}).get('held') and not g.is_set() for gs in w.gates.values() for g in gs)
             in_transit = (w.procs and not w.alive() and w.state() == 'running' and not held)
-            if in_transit and time.time() - t_q < quiet + 3.0:
+            # the child has been told to end (control file written) but is still alive, e.g. still starting under
+            # load; not when a prompt is open and nobody answers (then it cannot get there)
+            told = (os.path.exists(w.ctl) and w.alive() and w.state() == 'running' and not held and not w.open_prompts)
+            if (in_transit and time.time() - t_q < quiet + 3.0) or (told and time.time() - t_q < quiet + 5.0):
                 continue
             return True
     return False
